@@ -5,18 +5,282 @@ From DSW Require Import Py Bignum Convert Kmer Graph Spec GraphSpec.
 From DSW.Proofs Require Import KmerProofs GraphProofs ReprProofs GenerateProofs.
 Ltac Zify.zify_post_hook ::= Z.to_euclidean_division_equations.
 
-(* TARGET STATEMENTS (to be proved, do not change the statements):
+(* TARGET STATEMENTS: remove_useless_spec and latter_map_trimming_agrees, both proved below exactly as stated. *)
 
-(* what remove_useless computes on the latter map of a vertex-induced graph: the latter map of the induced graph on the
-   largest subset in which every member has at least t successors *)
+(* ======================================================================================== *)
+(* generic list lemmas                                                                      *)
+(* ======================================================================================== *)
+Lemma filter_map_swap : forall (A B : Type) (g : A -> B) (p : B -> bool) L,
+  filter p (map g L) = map g (filter (fun x => p (g x)) L).
+Proof.
+  intros A B g p. induction L as [|x xs IH]; [reflexivity|]. cbn [map filter].
+  destruct (p (g x)); cbn [map]; rewrite IH; reflexivity.
+Qed.
+
+Lemma filter_filter2 : forall (A : Type) (p q : A -> bool) L,
+  filter p (filter q L) = filter (fun x => q x && p x) L.
+Proof.
+  intros A p q. induction L as [|x xs IH]; [reflexivity|]. cbn [filter].
+  destruct (q x); cbn [andb filter]; [destruct (p x)|]; rewrite IH; reflexivity.
+Qed.
+
+Lemma filter_none : forall (A : Type) (L : list A), filter (fun _ => false) L = [].
+Proof. intros A. induction L as [|x xs IH]; [reflexivity|]. cbn [filter]. exact IH. Qed.
+
+Lemma memZ_filter : forall (p : Z -> bool) L x, memZ x (filter p L) = memZ x L && p x.
+Proof.
+  intros p. induction L as [|y ys IH]; intros x; [reflexivity|]. cbn [filter memZ].
+  destruct (x =? y) eqn:E.
+  - apply Z.eqb_eq in E. subst y. cbn [orb andb]. destruct (p x) eqn:Ep.
+    + cbn [memZ]. rewrite Z.eqb_refl. reflexivity.
+    + rewrite IH, Ep. apply andb_false_r.
+  - cbn [orb]. destruct (p y); [cbn [memZ]; rewrite E; cbn [orb]|]; apply IH.
+Qed.
+
+Lemma memZ_vertices : forall k v, 0 <= v < pow4 k -> memZ v (vertices_of k) = true.
+Proof. intros k v Hv. apply memZ_In. apply In_vertices. exact Hv. Qed.
+
+(* ======================================================================================== *)
+(* the size of a latter map and its decrease in a flagged round                             *)
+(* ======================================================================================== *)
+Lemma list_sum_cons : forall x l, list_sum (x :: l) = (x + list_sum l)%nat.
+Proof. reflexivity. Qed.
+
+Lemma lmap_size_sum : forall m, lmap_size m = list_sum (map (fun kv => length (snd kv)) m).
+Proof.
+  intros m. unfold lmap_size.
+  assert (G : forall (l : lmap) a, fold_left (fun a kv => (a + length (snd kv))%nat) l a
+                          = (a + list_sum (map (fun kv => length (snd kv)) l))%nat).
+  { induction l as [|x xs IH]; intros a; cbn [fold_left map]; [cbn; lia|]. rewrite IH, list_sum_cons. lia. }
+  rewrite G. lia.
+Qed.
+
+Lemma filter_length_strict : forall (ok : Z -> bool) ls, existsb (fun l => negb (ok l)) ls = true ->
+  (length (filter ok ls) < length ls)%nat.
+Proof.
+  intros ok. induction ls as [|x xs IH]; intros H; cbn [existsb] in H; [discriminate|].
+  cbn [filter]. pose proof (filter_length_bound ok xs) as Hb.
+  destruct (ok x); cbn [negb orb] in H; cbn [length]; [apply IH in H; lia | lia].
+Qed.
+
+Lemma sum_filter_le : forall (ok : Z -> bool) (L : lmap),
+  (list_sum (map (fun kv => length (filter ok (snd kv))) L) <= list_sum (map (fun kv => length (snd kv)) L))%nat.
+Proof.
+  intros ok. induction L as [|x xs IH]; cbn [map]; [lia|]. rewrite !list_sum_cons.
+  pose proof (filter_length_bound ok (snd x)). lia.
+Qed.
+
+Lemma sum_filter_lt : forall (ok : Z -> bool) (L : lmap),
+  existsb (fun kv => existsb (fun l => negb (ok l)) (snd kv)) L = true ->
+  (list_sum (map (fun kv => length (filter ok (snd kv))) L) < list_sum (map (fun kv => length (snd kv)) L))%nat.
+Proof.
+  intros ok. induction L as [|x xs IH]; intros H; cbn [existsb] in H; [discriminate|].
+  cbn [map]. rewrite !list_sum_cons. pose proof (sum_filter_le ok xs) as Hle.
+  pose proof (filter_length_bound ok (snd x)) as Hb.
+  destruct (existsb (fun l => negb (ok l)) (snd x)) eqn:E.
+  - apply filter_length_strict in E. lia.
+  - cbn [orb] in H. apply IH in H. lia.
+Qed.
+
+Lemma sum_sub_le : forall (p : Z * list Z -> bool) (L : lmap),
+  (list_sum (map (fun kv => length (snd kv)) (filter p L)) <= list_sum (map (fun kv => length (snd kv)) L))%nat.
+Proof.
+  intros p. induction L as [|x xs IH]; cbn [filter map]; [lia|].
+  destruct (p x); cbn [map]; rewrite ?list_sum_cons; lia.
+Qed.
+
+Lemma round_decrease : forall m t, snd (useless_round m t) = true ->
+  (lmap_size (fst (useless_round m t)) < lmap_size m)%nat.
+Proof.
+  intros m t. unfold useless_round. cbv zeta. cbn [fst snd].
+  set (removed := keys (filter (fun kv => Z.of_nat (length (snd kv)) <? t) m)).
+  set (saved := keys (filter (fun kv => negb (Z.of_nat (length (snd kv)) <? t)) m)).
+  set (ok := fun l : Z => negb (memZ l removed) && memZ l saved).
+  set (kept := filter (fun kv => negb (memZ (fst kv) removed)) m).
+  intros H. rewrite !lmap_size_sum. rewrite map_map. cbn [snd].
+  pose proof (sum_filter_lt ok kept H) as H1.
+  pose proof (sum_sub_le (fun kv => negb (memZ (fst kv) removed)) m) as H2.
+  fold kept in H2. lia.
+Qed.
+
+(* ======================================================================================== *)
+(* maps described by a key set K and a successor set S                                      *)
+(* ======================================================================================== *)
+Definition st (k : nat) (K S : vset) : lmap :=
+  map (fun v => (v, filter S (obtain_latters v k))) (filter K (vertices_of k)).
+
+Lemma st_ext : forall k K1 S1 K2 S2,
+  (forall v, 0 <= v < pow4 k -> K1 v = K2 v) ->
+  (forall v, 0 <= v < pow4 k -> K1 v = true -> forall l, In l (obtain_latters v k) -> S1 l = S2 l) ->
+  st k K1 S1 = st k K2 S2.
+Proof.
+  intros k K1 S1 K2 S2 HK HS. unfold st.
+  rewrite <- (filter_ext_in K1 K2 (vertices_of k)) by (intros v Hv; apply HK; apply In_vertices; exact Hv).
+  apply map_ext_in. intros v Hv. apply filter_In in Hv. destruct Hv as [Hv HKv]. apply In_vertices in Hv.
+  f_equal. apply filter_ext_in. intros l Hl. apply (HS v Hv HKv l Hl).
+Qed.
+
+Lemma lmap_from_map : forall (f : Z -> list Z) n s,
+  lmap_from (map f (zrange_from s n)) s
+  = map (fun v => (v, live_entries (f v))) (filter (fun v => row_listed (f v)) (zrange_from s n)).
+Proof.
+  intros f. induction n as [|n IH]; intros s; [reflexivity|].
+  cbn [zrange_from map lmap_from filter]. destruct (row_listed (f s)); cbn [map]; rewrite IH; reflexivity.
+Qed.
+
+Lemma latter_map_induced_on : forall k X,
+  accessor_to_latter_map (induced_on k X) = st k (fun v => X v && existsb X (obtain_latters v k)) X.
+Proof.
+  intros k X. unfold accessor_to_latter_map. rewrite induced_on_unfold. unfold st, vertices_of, zrange.
+  rewrite lmap_from_map.
+  assert (HF : forall v, row_listed (on_row k X v) = X v && existsb X (obtain_latters v k)).
+  { intros v. unfold on_row. destruct (X v); cbn [andb]; [|reflexivity].
+    apply row_listed_sel. apply latters_nonneg. }
+  rewrite (filter_ext _ _ HF).
+  apply map_ext_in. intros v Hv. apply filter_In in Hv. destruct Hv as [_ Hv].
+  apply andb_true_iff in Hv. destruct Hv as [HX _]. f_equal. unfold on_row. rewrite HX.
+  apply live_entries_sel. apply latters_nonneg.
+Qed.
+
+(* ---- one round on such a map ------------------------------------------------------------- *)
+Definition lo (k : nat) (S : vset) (t : Z) (v : Z) : bool :=
+  Z.of_nat (length (filter S (obtain_latters v k))) <? t.
+Definition nextK (k : nat) (K S : vset) (t : Z) : vset := fun v => K v && negb (lo k S t v).
+Definition nextS (k : nat) (K S : vset) (t : Z) : vset := fun l => S l && nextK k K S t l.
+
+Lemma keys_filter_st : forall (p : list Z -> bool) k K S,
+  keys (filter (fun kv => p (snd kv)) (st k K S))
+  = filter (fun v => p (filter S (obtain_latters v k))) (filter K (vertices_of k)).
+Proof.
+  intros p k K S. unfold st, keys. rewrite filter_map_swap. cbn [snd]. rewrite map_map. cbn [fst].
+  apply map_id.
+Qed.
+
+Lemma removed_st : forall k K S t,
+  keys (filter (fun kv => Z.of_nat (length (snd kv)) <? t) (st k K S))
+  = filter (lo k S t) (filter K (vertices_of k)).
+Proof. intros k K S t. exact (keys_filter_st (fun ls => Z.of_nat (length ls) <? t) k K S). Qed.
+
+Lemma saved_st : forall k K S t,
+  keys (filter (fun kv => negb (Z.of_nat (length (snd kv)) <? t)) (st k K S))
+  = filter (fun v => negb (lo k S t v)) (filter K (vertices_of k)).
+Proof. intros k K S t. exact (keys_filter_st (fun ls => negb (Z.of_nat (length ls) <? t)) k K S). Qed.
+
+Lemma mem_removed : forall k K S t l, 0 <= l < pow4 k ->
+  memZ l (filter (lo k S t) (filter K (vertices_of k))) = K l && lo k S t l.
+Proof. intros k K S t l Hl. rewrite !memZ_filter, memZ_vertices by exact Hl. reflexivity. Qed.
+
+Lemma mem_saved : forall k K S t l, 0 <= l < pow4 k ->
+  memZ l (filter (fun v => negb (lo k S t v)) (filter K (vertices_of k))) = K l && negb (lo k S t l).
+Proof. intros k K S t l Hl. rewrite !memZ_filter, memZ_vertices by exact Hl. reflexivity. Qed.
+
+Lemma ok_st : forall k K S t l, 0 <= l < pow4 k ->
+  negb (memZ l (filter (lo k S t) (filter K (vertices_of k))))
+  && memZ l (filter (fun v => negb (lo k S t v)) (filter K (vertices_of k))) = nextK k K S t l.
+Proof.
+  intros k K S t l Hl. rewrite mem_removed, mem_saved by exact Hl. unfold nextK.
+  destruct (K l), (lo k S t l); reflexivity.
+Qed.
+
+Lemma kept_st : forall k K S t,
+  filter (fun kv => negb (memZ (fst kv) (filter (lo k S t) (filter K (vertices_of k))))) (st k K S)
+  = st k (nextK k K S t) S.
+Proof.
+  intros k K S t. unfold st. rewrite filter_map_swap. cbn [fst]. f_equal. rewrite filter_filter2.
+  apply filter_ext_in. intros v Hv. apply In_vertices in Hv. rewrite mem_removed by exact Hv.
+  unfold nextK. destruct (K v), (lo k S t v); reflexivity.
+Qed.
+
+Lemma round_fst : forall k K S t,
+  fst (useless_round (st k K S) t) = st k (nextK k K S t) (nextS k K S t).
+Proof.
+  intros k K S t. unfold useless_round. cbv zeta. cbn [fst].
+  rewrite removed_st, saved_st, kept_st. unfold st. rewrite map_map. cbn [fst snd].
+  apply map_ext_in. intros v Hv. f_equal. rewrite filter_filter2. apply filter_ext_in. intros l Hl.
+  rewrite ok_st by (apply (latters_range k v l Hl)). reflexivity.
+Qed.
+
+Lemma round_snd : forall k K S t, snd (useless_round (st k K S) t) = false ->
+  forall v, 0 <= v < pow4 k -> nextK k K S t v = true ->
+  forall l, In l (obtain_latters v k) -> S l = true -> nextK k K S t l = true.
+Proof.
+  intros k K S t. unfold useless_round. cbv zeta. cbn [snd].
+  rewrite removed_st, saved_st, kept_st. intros H v Hv HK l Hl HS.
+  destruct (nextK k K S t l) eqn:E; [reflexivity|]. exfalso.
+  rewrite <- Bool.not_true_iff_false in H. apply H. apply existsb_exists.
+  exists (v, filter S (obtain_latters v k)). split.
+  - unfold st. apply in_map_iff. exists v. split; [reflexivity|]. apply filter_In. split; [|exact HK].
+    apply In_vertices. exact Hv.
+  - cbn [snd]. apply existsb_exists. exists l. split; [apply filter_In; split; assumption|].
+    rewrite ok_st by (apply (latters_range k v l Hl)). rewrite E. reflexivity.
+Qed.
+
+(* ======================================================================================== *)
+(* the iteration                                                                            *)
+(* ======================================================================================== *)
+Lemma fuel_spec : forall k t (M : vset), 1 <= t -> forall fuel K S,
+  (forall v, 0 <= v < pow4 k -> K v = true -> M v = true) ->
+  (forall v, 0 <= v < pow4 k -> K v = true -> S v = true) ->
+  (forall Y, closed_deg k t Y -> vsub k Y M -> forall v, vin k Y v -> K v = true /\ S v = true) ->
+  (lmap_size (st k K S) < fuel)%nat ->
+  exists X : vset,
+    closed_deg k t X /\ vsub k X M
+    /\ (forall Y, closed_deg k t Y -> vsub k Y M -> vsub k Y X)
+    /\ remove_useless_fuel fuel (st k K S) t = Ok (accessor_to_latter_map (induced_on k X)).
+Proof.
+  intros k t M Ht. induction fuel as [|f IH]; intros K S HKM HKS HY Hsz; [lia|].
+  cbn [remove_useless_fuel].
+  pose proof (round_fst k K S t) as Hf. pose proof (round_snd k K S t) as Hs.
+  pose proof (round_decrease (st k K S) t) as Hd.
+  destruct (useless_round (st k K S) t) as [m' flag]. cbn [fst snd] in Hf, Hs, Hd. subst m'.
+  assert (HYK : forall Y, closed_deg k t Y -> vsub k Y M -> forall v, vin k Y v -> nextK k K S t v = true).
+  { intros Y Hc Hsub v Hv. destruct (HY Y Hc Hsub v Hv) as [HKv _].
+    assert (HYS : vsub k Y S).
+    { intros w Hw. split; [apply Hw|]. apply (HY Y Hc Hsub w Hw). }
+    pose proof (succ_count_mono k Y S v HYS) as Hm. pose proof (Hc v Hv) as Hcv.
+    unfold succ_count in Hm, Hcv. unfold nextK, lo. rewrite HKv. cbn [andb].
+    destruct (Z.of_nat (length (filter S (obtain_latters v k))) <? t) eqn:E; [lia|reflexivity]. }
+  assert (HK'K : forall v, nextK k K S t v = true -> K v = true).
+  { intros v H. unfold nextK in H. apply andb_true_iff in H. apply H. }
+  destruct flag.
+  - apply IH.
+    + intros v Hv H. apply HKM; [exact Hv|]. apply HK'K. exact H.
+    + intros v Hv H. unfold nextS. rewrite H. rewrite (HKS v Hv (HK'K v H)). reflexivity.
+    + intros Y Hc Hsub v Hv. pose proof (HYK Y Hc Hsub v Hv) as H1. split; [exact H1|].
+      unfold nextS. rewrite H1. destruct (HY Y Hc Hsub v Hv) as [_ H2]. rewrite H2. reflexivity.
+    + specialize (Hd eq_refl). lia.
+  - specialize (Hs eq_refl). exists (nextK k K S t).
+    assert (Hcd : closed_deg k t (nextK k K S t)).
+    { intros v [Hv HK']. unfold succ_count.
+      pose proof (filter_length_le S (nextK k K S t) (obtain_latters v k) (fun l Hl HS => Hs v Hv HK' l Hl HS)) as Hle.
+      unfold nextK, lo in HK'. apply andb_true_iff in HK'. destruct HK' as [_ HK'].
+      destruct (Z.of_nat (length (filter S (obtain_latters v k))) <? t) eqn:E; [discriminate|]. lia. }
+    split; [exact Hcd|]. split; [|split].
+    + intros v [Hv H]. split; [exact Hv|]. apply HKM; [exact Hv|]. apply HK'K. exact H.
+    + intros Y Hc Hsub v Hv. split; [apply Hv|]. apply (HYK Y Hc Hsub v Hv).
+    + f_equal. rewrite latter_map_induced_on. apply st_ext.
+      * intros v Hv. destruct (nextK k K S t v) eqn:E; [|reflexivity]. cbn [andb].
+        rewrite existsb_filter. pose proof (Hcd v (conj Hv E)) as H. unfold succ_count in H. lia.
+      * intros v Hv HK' l Hl. unfold nextS. destruct (nextK k K S t l) eqn:E; [|apply andb_false_r].
+        rewrite (HKS l (latters_range k v l Hl) (HK'K l E)). reflexivity.
+Qed.
+
 Theorem remove_useless_spec : forall k t mask, (1 <= k)%nat -> length mask = Z.to_nat (pow4 k) -> Forall bit mask -> 1 <= t ->
   exists X : vset,
     closed_deg k t X /\ vsub k X (maskb mask)
     /\ (forall Y, closed_deg k t Y -> vsub k Y (maskb mask) -> vsub k Y X)
     /\ remove_useless (accessor_to_latter_map (induced k mask)) t = Ok (accessor_to_latter_map (induced_on k X)).
+Proof.
+  intros k t mask _ _ _ Ht. rewrite induced_eq_induced_on. rewrite latter_map_induced_on.
+  unfold remove_useless. apply fuel_spec; [exact Ht| | | |lia].
+  - intros v _ H. apply andb_true_iff in H. apply H.
+  - intros v _ H. apply andb_true_iff in H. apply H.
+  - intros Y Hc Hsub v Hv. destruct (Hsub v Hv) as [Hr HM]. rewrite HM. cbn [andb]. split; [|reflexivity].
+    rewrite existsb_filter.
+    pose proof (succ_count_mono k Y (maskb mask) v Hsub) as Hm. pose proof (Hc v Hv) as Hcv.
+    unfold succ_count in Hm, Hcv. lia.
+Qed.
 
-(* the two implementations agree for t >= 2 (when the graph is empty the mask version raises ValueError, the latter-map
-   version returns the arc-less accessor) *)
 Theorem latter_map_trimming_agrees : forall k t mask, (1 <= k)%nat -> length mask = Z.to_nat (pow4 k) -> Forall bit mask ->
   2 <= t ->
   match connect_coding_graph k mask t with
@@ -24,4 +288,33 @@ Theorem latter_map_trimming_agrees : forall k t mask, (1 <= k)%nat -> length mas
   | Raise ValueError => latter_map_to_accessor (accessor_to_latter_map (induced k mask)) k (Some t) = Ok (blank_accessor k)
   | _ => False
   end.
-*)
+Proof.
+  intros k t mask Hk Hl Hb Ht.
+  destruct (remove_useless_spec k t mask Hk Hl Hb ltac:(lia)) as [X [Hcd [Hsub [Hmax Heq]]]].
+  assert (HLC : largest_closed k t (maskb mask) X).
+  { split; [split; [exact Hcd | intros H; lia]|]. split; [exact Hsub|].
+    intros Y [HYc _] HYs. apply Hmax; assumption. }
+  pose proof (coding_graph_t2 k t mask Hk Hl Hb Ht) as HC.
+  unfold latter_map_to_accessor. rewrite Heq. cbn [bind].
+  destruct (connect_coding_graph k mask t) as [[V acc]|e|].
+  - destruct HC as [HL [Hacc [Hleg _]]].
+    pose proof (largest_closed_unique k t (maskb mask) X (live_set acc) HLC HL) as Hiff.
+    assert (Hveq : veq k X (live_set acc)).
+    { intros v Hv. destruct (X v) eqn:E1, (live_set acc v) eqn:E2; try reflexivity.
+      - destruct (proj1 (Hiff v) (conj Hv E1)) as [_ H]. congruence.
+      - destruct (proj2 (Hiff v) (conj Hv E2)) as [_ H]. congruence. }
+    rewrite (induced_on_ext k X (live_set acc) Hveq). rewrite <- Hacc.
+    apply (latter_map_roundtrip_partial k acc Hk Hleg).
+  - destruct e; try exact HC.
+    assert (Hemp : vempty k X).
+    { apply HC; [|exact Hsub]. destruct HLC as [H _]. exact H. }
+    rewrite latter_map_induced_on.
+    rewrite (st_ext k _ X (fun _ => false) X).
+    + unfold st. rewrite filter_none. reflexivity.
+    + intros v Hv. destruct (X v) eqn:E; [|reflexivity]. exfalso. apply (Hemp v). split; assumption.
+    + intros v _ _ l _. reflexivity.
+  - exact HC.
+Qed.
+
+Print Assumptions remove_useless_spec.
+Print Assumptions latter_map_trimming_agrees.
